@@ -458,6 +458,22 @@ fn thread_count() -> usize {
     std::fs::read_dir("/proc/self/task").map(|d| d.count()).unwrap_or(1)
 }
 
+/// Threads of earlier scenarios in this process (a compile thread that has handed over its result, the
+/// workers of a dropped multi-thread runtime) may still be exiting when the next scenario starts; counted
+/// into the baseline they would hide a compile thread of the new scenario. Waits (up to 2 s of real time)
+/// until the process is back at the lowest thread count it has ever had between scenarios.
+fn settle_threads() {
+    static MIN_THREADS: std::sync::atomic::AtomicUsize = std::sync::atomic::AtomicUsize::new(usize::MAX);
+    let mut n = thread_count();
+    let mut waited = 0;
+    while n > MIN_THREADS.load(Ordering::SeqCst) && waited < 4000 {
+        std::thread::sleep(std::time::Duration::from_micros(500));
+        waited += 1;
+        n = thread_count();
+    }
+    MIN_THREADS.fetch_min(n, Ordering::SeqCst);
+}
+
 type CallSlot = Arc<Mutex<Vec<CallRec>>>;
 
 fn spawn_call<F, E>(shared: &Arc<Shared>, slot: &CallSlot, what: &str, comp: usize, party: usize, step: usize, compile_alive: bool, fut: F)
@@ -487,6 +503,7 @@ where
 
 /// Runs one scenario to quiescence on a fresh current-thread runtime with paused clock.
 pub fn explore(sc: &Scenario) -> RunRecord {
+    settle_threads();
     let rt = tokio::runtime::Builder::new_current_thread().enable_time().start_paused(true).build().expect("runtime");
     let base_threads = thread_count();
     rt.block_on(async move {
@@ -758,6 +775,7 @@ pub fn explore(sc: &Scenario) -> RunRecord {
 /// judged only if it reaches quiescence (no event for 400 ms, no pending work) before the watchdog;
 /// otherwise it is inconclusive.
 pub fn explore_mt(sc: &Scenario, seed: u64) -> RunRecord {
+    settle_threads();
     let rt = tokio::runtime::Builder::new_multi_thread().worker_threads(4).enable_time().build().expect("runtime");
     std::thread::sleep(std::time::Duration::from_millis(5));
     let base_threads = thread_count();
